@@ -14,6 +14,7 @@ CfgThorough == {Cfg2(a, b) : a \in {"refresh", "both"}, b \in {"basic", "static"
                  \cup {Cfg2("basic", "static"), Cfg2("basic", "basic"), Cfg2("static", "none")}
 CfgConc == {Cfg2("refresh", "basic"), Cfg2("both", "static")}
 CfgWide == {Cfg2("both", "basic"), Cfg2("refresh", "static")}
+CfgWide1 == {Cfg2("both", "static")}
 CfgTime == {Cfg2("refresh", "static"), Cfg2("basic", "none")}
 
 Bearers == {BearerChal(r, sc) : r \in Realms, sc \in ScopeSets}
